@@ -96,8 +96,112 @@ def diff_kind(g, h):
     return "+".join(ks) or "none"
 
 
+HIST_CFG = """SPECIFICATION Spec
+CONSTANTS
+ Mech <- %s
+ MaxLen = %d
+ Inits <- AllInits
+INVARIANT TypeOK
+INVARIANT Refines
+INVARIANT Reflexive
+INVARIANT Symmetric
+INVARIANT CopyEqual
+PROPERTY EditFlips
+%s
+CHECK_DEADLOCK FALSE
+"""
+
+TRACE_CFG = """INIT TraceInit
+NEXT TraceNext
+CONSTANTS
+ Mech <- MechIntended
+ MaxLen = 99
+ Inits <- AllInits
+INVARIANT TraceTypeOK
+INVARIANT Judge
+CHECK_DEADLOCK FALSE
+"""
+
+
+def _hist_of(v):
+    """<<"H", init2, hist>> -> (init2, [(act, args, want)])"""
+    return v[1], [(st[0], list(st[1]), bool(st[2])) for st in v[2]]
+
+
+def history_phase(ctx, thorough):
+    """== as a function of the operands' current contents only: GridEqHist.tla (see its header)."""
+    import json
+    import random
+
+    from harness import x_c20 as X
+
+    rng = random.Random(ctx.seed)
+    r = ctx.tlc_ok("GridEqHist", HIST_CFG % ("MechIntended", 3, "INVARIANT Emit"), what="== depends on current contents only: all histories of <= 3 steps, 7 initial pairs", workers=8, timeout=1500)
+    hs = [_hist_of(v) for v in r.prints if isinstance(v, tuple) and len(v) == 3 and v[0] == "H"]
+    if len(hs) < 1000:
+        raise Machinery("GridEqHist emitted only %d histories" % len(hs))
+    # the mechanisms that let history leak into the answer must be refuted by the model
+    for mech in ("MechDims", "MechMemo"):
+        rr = ctx.tlc("GridEqHist", HIST_CFG % (mech, 3, ""), what="GridEqHist(%s) must violate Refines" % mech, workers=4, count=False, timeout=600)
+        if rr.violated != "Refines":
+            raise Machinery("%s does not violate Refines in the model (vacuous?): violated=%s" % (mech, rr.violated))
+    n_all = len(hs)
+    if not thorough:
+        first = [h for h in hs if h[1][0][0] in ("Compare", "Copy")]
+        rest = [h for h in hs if h[1][0][0] not in ("Compare", "Copy")]
+        rng.shuffle(rest)
+        hs = first + rest[:3500]
+    # longer histories: TLC's simulator
+    sim = ctx.tlc("GridEqHist", HIST_CFG % ("MechIntended", 6, "INVARIANT EmitAny"), what="simulated histories of 6 steps", workers=1, count=False, timeout=600,
+                  simulate="num=%d" % (4000 if thorough else 600), depth=8, seed=ctx.seed)
+    long_hs = [_hist_of(v) for v in sim.prints if isinstance(v, tuple) and len(v) == 3 and v[0] == "H"]
+    long_hs = [h for h in long_hs if any(st[0] == "Compare" for st in h[1])]
+    jobs = []
+    for k, (init2, steps) in enumerate(hs + long_hs):
+        jobs.append((k + 1, init2, steps, X.SCALES[k % len(X.SCALES)]))
+    traces = pmap(X.replay, jobs)
+    bad = [t for t in traces if "harness_error" in t]
+    if bad:
+        raise Machinery("replay failed in the harness for %d histories, e.g. %s" % (len(bad), bad[0]["harness_error"]))
+    path = os.path.join(ctx.work, "eq_traces.ndjson")
+    with open(path, "w") as fh:
+        for t in traces:
+            fh.write(json.dumps({"tid": t["tid"], "init2": t["init2"], "events": [{k: e[k] for k in ("act", "o", "t", "f", "how", "x", "y", "obs")} for e in t["events"]]}) + "\n")
+    v = ctx.tlc_ok("TraceGridEq", TRACE_CFG, what="validate %d recorded histories against GridEqHist" % len(traces), workers=8, env={"TRACE_FILE": path}, count=False, timeout=3000, heap="6g")
+    os.remove(path)
+    viol, ended = {}, {}
+    n_parsed = 0
+    for p in v.prints:
+        if isinstance(p, tuple) and p and p[0] == "V" and len(p) == 4:
+            viol.setdefault(p[1], []).append((p[2], p[3]))
+            n_parsed += 1
+        elif isinstance(p, tuple) and p and p[0] == "E" and len(p) == 3:
+            ended[p[1]] = p[2]
+    if n_parsed != v.out.count('"V"'):
+        raise Machinery("trace validator printed %d verdict lines, parsed %d" % (v.out.count('"V"'), n_parsed))
+    by_tid = {t["tid"]: t for t in traces}
+    for t in traces:
+        if ended.get(t["tid"]) != len(t["events"]):
+            raise Machinery("trace %s was not consumed to its end by the specification (%s of %d)" % (t["tid"], ended.get(t["tid"]), len(t["events"])))
+    ctx.traces += len(traces)
+    touch_raised = 0
+    for t in traces:
+        key = "hist:%s:%s" % (t["init2"], ";".join("%s(%s)" % (e["act"], ",".join(str(e[k]) for k in ("o", "t", "f", "how", "x", "y") if e[k] not in (0, ""))) for e in t["events"]))
+        ctx.count(1, key)
+        touch_raised += sum(1 for e in t["events"] if e["act"] == "Touch" and "note" in e)
+    for tid, vs in sorted(viol.items()):
+        t = by_tid[tid]
+        line, clause = sorted(vs)[0]
+        evs = t["events"][:line]
+        shape = [e["act"] + (":" + e["t"] if e["act"] == "Touch" else ":" + e["how"] if e["how"] else "") for e in evs]
+        ctx.violation("hist:%s" % tid, clause, detail={"init2": t["init2"], "scale": t["scale"], "events": evs, "line": line},
+                      sig={"phase": "history", "shape": shape, "init2": t["init2"]}, replay={"history": [t["init2"], [[e["act"], [e[k] for k in ("o", "t", "f", "how", "x", "y") if e[k] not in (0, "")]] for e in t["events"]]], "scale": t["scale"]})
+    ctx.note("history_phase", {"generated_len3": n_all, "replayed_len3": len(hs), "simulated_len6": len(long_hs), "violating": len(viol), "touch_steps_that_raised": touch_raised})
+
+
 def run(ctx):
     thorough = ctx.tier == "thorough"
+    history_phase(ctx, thorough)
     dump = os.path.join(ctx.work, "eq")
     r = ctx.tlc_ok("GridEq", CFG % ((2, 1) if thorough else (2, 0)), what="equality laws + test vectors", dump=dump, workers=8)
     with open(dump + ".dump") as fh:
@@ -136,7 +240,12 @@ def run(ctx):
         "TLC explores pairs of grids reached from a common base by single-entry edits (GridEq.tla), checking the laws of equality "
         "on the specification and dumping each pair with its expected answer; every pair is realised as two real Grids and "
         "==, != are evaluated in both orders, plus reflexivity, equality with an independently built identical grid, with a copy, "
-        "and with non-Grid operands. Non-trivial = pair that differs (the kind of difference is recorded)."
+        "and with non-Grid operands. Histories (GridEqHist.tla): TLC proves that the answer is a function of the operands' current "
+        "contents under the intended mechanism and refutes the mechanisms that compare dataset dimensions or cache a digest; every "
+        "history of three steps over {lazy derivations and content-preserving mutators on one operand, setter / in-place edit of one "
+        "longitude, latitude or connectivity entry, copy / deepcopy, compare} (sampled in the quick tier) and simulated histories "
+        "of six steps are replayed on two real Grids and validated by TraceGridEq.tla. "
+        "Non-trivial = pair that differs (the kind of difference is recorded) or distinct history."
     )
     kinds = {}
     for c, o in zip(cases, res):
